@@ -25,6 +25,7 @@ func main() {
 	selftest := flag.Bool("selftest", false, "run the must-fail corpus")
 	seed := flag.Int64("seed", 0, "seed")
 	writeBaseline := flag.Bool("write-baseline", false, "record discharged obligations in baseline/obligations.json (run on the unchanged tree only)")
+	flag.BoolVar(&calls, "calls", false, "with -dump: list call sites and the names `on call` clauses match")
 	cpuprof := flag.String("cpuprofile", "", "write cpu profile")
 	flag.Parse()
 	_ = seed
@@ -56,11 +57,14 @@ func main() {
 	os.Exit(code)
 }
 
+var calls bool
+
 func dumpFunc(repo, verif, key string) error {
 	e, err := vc.Load(repo, []string{"./..."}, nil)
 	if err != nil {
 		return err
 	}
+	_ = e.LoadContracts(verif)
 	var keys []string
 	for _, f := range e.ModuleFunctions() {
 		k := vc.FuncKey(f)
@@ -73,6 +77,9 @@ func dumpFunc(repo, verif, key string) error {
 		f := e.Func(k)
 		fmt.Printf("=== %s (%s)\n", k, e.Fset.Position(f.Pos()))
 		vc.DumpLoops(e, f, os.Stdout)
+		if calls {
+			vc.DumpCalls(e, f, os.Stdout)
+		}
 		if k == key {
 			f.WriteTo(os.Stdout)
 		}
